@@ -614,7 +614,7 @@ func (w *c05World) totp(cs []int, owner int, step int64) {
 		at := time.Unix((w.realStep+(step-w.modelStep()))*30+7, 0)
 		code, _ = totp.GenerateCode(w.secret[owner], at)
 		coq = fmt.Sprintf("(TCode %d %d)", owner, step)
-		human = fmt.Sprintf("code of %s for step %+d", w.names[owner], step-w.modelStep())
+		human = fmt.Sprintf("code of %s for step %d, now step %d", w.names[owner], step, w.modelStep())
 	} else {
 		code = fmt.Sprintf("%06d", c05Garbage(w.secret[1], w.secret[2]))
 	}
@@ -646,10 +646,10 @@ func (w *c05World) totp(cs []int, owner int, step int64) {
 	rr := w.serve(req)
 	em := w.emitted(rr)
 	w.dirty = true
+	w.record("Totp", fmt.Sprintf("Totp %s %s", c05CoqList(cs), coq), fmt.Sprintf("Totp%v(%s)", cs, human), su, rr.Code < 400, em)
 	if owner != 0 {
 		w.acceptOnce("Totp", fmt.Sprintf("totp:%d:%d", owner, step), step < w.modelStep()-1, em)
 	}
-	w.record("Totp", fmt.Sprintf("Totp %s %s", c05CoqList(cs), coq), fmt.Sprintf("Totp%v(%s)", cs, human), su, rr.Code < 400, em)
 }
 
 func (w *c05World) u2fBegin(cs []int) {
@@ -745,9 +745,9 @@ func (w *c05World) finish(kind string, cs []int, owner int, wa bool, chal int) {
 		w.dirty = true
 		time.Sleep(15 * time.Millisecond)
 	}
-	w.acceptOnce(kind, fmt.Sprintf("challenge:%d", chal), known && w.nowM >= w.chalAt[chal]+30, em)
 	w.record(kind, fmt.Sprintf("%s %s (A %d %d %s)", kind, c05CoqList(cs), owner, chal, coqBool(wa)),
 		fmt.Sprintf("%s%v(key of %s, wa=%v, challenge %d)", kind, cs, w.names[owner], wa, chal), su, rr.Code < 400, em)
+	w.acceptOnce(kind, fmt.Sprintf("challenge:%d", chal), known && w.nowM >= w.chalAt[chal]+30, em)
 }
 
 func (w *c05World) issueOtp(target int, dur int64) {
@@ -798,10 +798,10 @@ func (w *c05World) bootstrap(cs []int, serial int) {
 	rr := w.serve(req)
 	em := w.emitted(rr)
 	w.dirty = true
+	w.record("Bootstrap", fmt.Sprintf("Bootstrap %s %s", c05CoqList(cs), coq), fmt.Sprintf("Bootstrap%v(%s)", cs, human), su, rr.Code < 400, em)
 	if owner != 0 {
 		w.acceptOnce("Bootstrap", fmt.Sprintf("boot:%d", serial), w.nowM >= w.otpExp[serial], em)
 	}
-	w.record("Bootstrap", fmt.Sprintf("Bootstrap %s %s", c05CoqList(cs), coq), fmt.Sprintf("Bootstrap%v(%s)", cs, human), su, rr.Code < 400, em)
 }
 
 func (w *c05World) showTok(cs []int, life int64) {
@@ -1124,7 +1124,7 @@ func (w *c05World) targeted() []func() {
 
 func TestVerif_C05(t *testing.T) {
 	verifWriteConsts(t)
-	res := newVerifResult("exhaustive depth-3 (thorough: depth-4) histories over a 14-letter alphabet after the prefix [login alice; login bob] + seeded random histories of length <= 12 (thorough <= 20) over all 16 operations, two enrolment configurations, cookies attached singly and in pairs in both orders + targeted scenarios; non-trivial = the history contains at least one level upgrade; distinct by (operations, outputs)")
+	res := newVerifResult("exhaustive depth-3 histories over a 14-letter alphabet (thorough: also depth 4 over its first ten letters) after the prefix [login alice; login bob] + seeded random histories of length <= 12 (thorough <= 20) over all 16 operations, two enrolment configurations, cookies attached singly and in pairs in both orders + targeted scenarios; non-trivial = the history contains at least one level upgrade; distinct by (operations, outputs)")
 	vip := &c05Vip{}
 	vip.reset()
 	vip.srv = httptest.NewTLSServer(http.HandlerFunc(vip.handle))
@@ -1213,32 +1213,33 @@ func TestVerif_C05(t *testing.T) {
 			res.bump("history:targeted")
 		}
 	}
-	// exhaustive small scope
+	// exhaustive small scope: depth 3 over the whole alphabet; thorough adds depth 4 over its first ten letters
 	w.devs, w.cfgID = configs[0], 0
-	depth := 3
-	if thorough {
-		depth = 4
-	}
-	nAlpha := len(w.alphabet())
-	total := 1
-	for i := 0; i < depth; i++ {
-		total *= nAlpha
-	}
-	for h := 0; h < total; h++ {
-		w.prefix()
-		x := h
+	enumerate := func(nAlpha, depth int, tag string) {
+		total := 1
 		for i := 0; i < depth; i++ {
-			w.alphabet()[x%nAlpha]()
-			x /= nAlpha
+			total *= nAlpha
 		}
-		finishHistory(0, "exhaustive")
-		res.bump("history:exhaustive")
+		for h := 0; h < total; h++ {
+			w.prefix()
+			x := h
+			for i := 0; i < depth; i++ {
+				w.alphabet()[x%nAlpha]()
+				x /= nAlpha
+			}
+			finishHistory(0, tag)
+			res.bump("history:" + tag)
+		}
+	}
+	enumerate(len(w.alphabet()), 3, "exhaustive")
+	if thorough {
+		enumerate(10, 4, "exhaustive-depth4")
 	}
 	res.Exhaustive = true
 	// random
 	nRandom, maxLen := 300, 12
 	if thorough {
-		nRandom, maxLen = 5000, 20
+		nRandom, maxLen = 3000, 20
 	}
 	for h := 0; h < nRandom; h++ {
 		ci := h % len(configs)
